@@ -345,6 +345,27 @@ def run_one(ctx, facts, cfgname):
         md = [f for f in se["variants"][0]["fields"] if f["name"] == "metadata"]
         ctx.require(bool(md) and md[0]["ty"].startswith("alloc::collections::btree::map::BTreeMap<"), "R16.6", "metadata-btreemap" + sfx,
                     "SerdeEvent.metadata is a BTreeMap", fail="metadata is no longer serialised from a sorted map: key order becomes unstable")
+    # Event <-> SerdeEvent only move the tag list and re-collect the metadata map: nothing is reordered, dropped or rewritten
+    EV, SEV = "watchexec_events::event::Event", "watchexec_events::serde_formats::SerdeEvent"
+    for src, dst in ((EV, SEV), (SEV, EV)):
+        cands = facts.trait_methods(dst, "From<" + src + ">", "from")
+        if len(cands) != 1:
+            ctx.violation("R16.6", "floor:anchor:%s-from-%s%s" % (dst.split("::")[-1], src.split("::")[-1], sfx), "conversion not found")
+            continue
+        f = cands[0]
+        ctx.saw_fn(f)
+        v = thir.expr_value(thir.root(f))
+        ok = v[0] == "v" and set(v[3]) == {"tags", "metadata"} and v[3]["tags"] == ("var", "tags")
+        md = v[3].get("metadata") if v[0] == "v" else None
+        okm = bool(md) and md[0] == "call" and md[1].endswith("Iterator::collect") and len(md[2]) == 1 and md[2][0][0] == "call" \
+            and md[2][0][1].endswith("IntoIterator::into_iter") and md[2][0][2] == [("var", "metadata")]
+        body = thir.root(f)
+        plain = isinstance(body, dict) and body.get("k") == "block" and not body.get("s")
+        ctx.require(ok and okm and plain, "R16.6", "event-mirror-moves:%s->%s%s" % (src.split("::")[-1], dst.split("::")[-1], sfx),
+                    "%s -> %s moves the tags and re-collects the metadata map unchanged" % (src.split("::")[-1], dst.split("::")[-1]), f.loc(f.line),
+                    detail=str(v)[:300],
+                    fail="the %s -> %s conversion rewrites tags or metadata (sorting, filtering, mapping): an event does not survive the round trip unchanged"
+                         % (src.split("::")[-1], dst.split("::")[-1]))
     for ty, mirror in (("watchexec_events::event::Tag", "SerdeTag"), ("watchexec_events::event::Event", "SerdeEvent")):
         for tr, meth, direction in (("Serialize", "serialize", "into"), ("Deserialize", "deserialize", "from")):
             cands = facts.trait_methods(ty, "::" + tr, meth)
